@@ -11,9 +11,9 @@
    /tmp/seedwork/PREFIX-Cxx/mutantN.diff (development: the "first run" of a new seeding round).
 
    --jobs 1 (default): literally in /repo - git apply, ./check <id> quick, git checkout.
-   --jobs N: N scratch git worktrees of /repo's HEAD under /tmp/pv-rerun, each with its own copy
+   --jobs N: N scratch git worktrees of /repo's HEAD under /tmp/pv-rerun-<pid>, each with its own copy
    of the harness source (Cargo.toml pointing at that worktree) and its own output directory, so
-   /repo, /verif/evidence and /verif/replays are not touched; everything under /tmp/pv-rerun is
+   /repo, /verif/evidence and /verif/replays are not touched; everything under that directory is
    removed at the end.  The harness that is copied is the working tree of /verif/harness."""
 import glob, json, os, shutil, subprocess, sys, threading, time
 
@@ -108,8 +108,8 @@ if jobs <= 1:
         finally:
             sh(["git", "-C", "/repo", "checkout", "--", "."])
 else:
-    out["how"] = "%d scratch worktrees of /repo HEAD with private harness copies under /tmp/pv-rerun (removed afterwards); pv <property> quick" % jobs
-    root = "/tmp/pv-rerun"
+    out["how"] = "%d scratch worktrees of /repo HEAD with private harness copies under /tmp/pv-rerun-<pid> (removed afterwards); pv <property> quick" % jobs
+    root = "/tmp/pv-rerun-%d" % os.getpid()
     shutil.rmtree(root, ignore_errors=True)
     sh(["git", "-C", "/repo", "worktree", "prune"])
     os.makedirs(root)
